@@ -79,13 +79,15 @@ theorem walkLoopB_team_no_idle (e : Env) (wf : WF e) (t : Nat) (sel : List Nat) 
         have hcur2 : (advance false w (scheduleSlot e σ t w).2.1).cur = w.cur - 1 := by
           rw [advance_cur, scheduleSlot_cur]; simp; omega
         have hin2 : WalkIn e (advance false w (scheduleSlot e σ t w).2.1) := by
-          refine ⟨?_, ?_⟩
+          refine ⟨?_, ?_, ?_⟩
           · simp only [Bool.or_eq_true, decide_eq_true_eq, not_or, Int.not_lt] at hout
             exact hout.1
           · show (0 : Rat) ≤ (e.G : Rat) - 1 / 1000000
             have : (1 : Int) ≤ e.G := wf.G_pos
             have : (1 : Rat) ≤ (e.G : Rat) := by exact_mod_cast this
             grind
+          · simp only [Bool.or_eq_true, decide_eq_true_eq, not_or, Int.not_lt] at hout
+            exact hout.2
         intro p hp hall
         rcases List.mem_cons.mp hp with hp | hp
         · subst hp
@@ -141,9 +143,8 @@ theorem scheduleTaskB_team_no_idle_interval (e : Env) (wf : WF e) (σ : St) (t :
     have hw : WalkOk e t { cur := (initCursor e σ t).1, offset := (initCursor e σ t).2 } :=
       ⟨hoff.1, hoff.2, wf.effort_nonneg t⟩
     have hin : WalkIn e { cur := (initCursor e σ t).1, offset := (initCursor e σ t).2 } := by
-      refine ⟨?_, initCursor_room e σ t wf⟩
       simp only [Bool.or_eq_true, decide_eq_true_eq, not_or, Int.not_lt] at hout
-      exact hout.1
+      exact ⟨hout.1, initCursor_room e σ t wf, hout.2⟩
     have hts : TS (σ.setT t (σ.tst t)) t sel false { cur := (initCursor e σ t).1, offset := (initCursor e σ t).2 } [] :=
       ⟨fun r _ i _ => hclean r i, fun i hi => absurd hi List.not_mem_nil,
         fun r _ r' _ i => by
